@@ -32,6 +32,10 @@ func c01RedisErr(class string) error {
 		return fmt.Errorf("wrapped: %w", context.Canceled)
 	case "deadline":
 		return context.DeadlineExceeded
+	case "wdeadline":
+		return fmt.Errorf("wrapped: %w", context.DeadlineExceeded)
+	case "wother":
+		return fmt.Errorf("wrapped: %w", errors.New("c01 other"))
 	case "brkopen":
 		return breaker.ErrServiceUnavailable
 	case "wbrkopen":
@@ -44,10 +48,12 @@ func c01RedisErr(class string) error {
 
 func TestVerifC01Redis(t *testing.T) {
 	good := []string{"nil", "rnil", "wrnil", "canceled", "wcanceled"}
-	bad := []string{"deadline", "other", "brkopen", "wbrkopen"}
+	bad := []string{"deadline", "wdeadline", "other", "wother", "brkopen", "wbrkopen"}
 	specs := []verifc01.SiteSpec{
 		{Site: "rproc", Good: good, Bad: bad, Flags: func(r *verifh.Rng, c *verifc01.Call) { c.Ignored = r.Chance(1, 8) }},
-		{Site: "rpipe", Good: good, Bad: bad},
+		// sf=1: mixed results inside the pipeline (the commands carry errors of their own, different from what the
+		// pipeline returns): the hook must judge by the returned error only
+		{Site: "rpipe", Good: good, Bad: bad, Flags: func(r *verifh.Rng, c *verifc01.Call) { c.ScanFail = r.Chance(1, 3) }},
 	}
 	verifc01.Run(t, verifc01.Gen(specs, false), func(named bool) verifc01.Env {
 		brk := breaker.NewBreaker()
